@@ -1,5 +1,6 @@
 import OmplModel.Model.Dubins
 import OmplModel.Model.ReedsShepp
+import OmplModel.Model.Owen
 import OmplModel.Driver.Common
 /-! Line-protocol driver for the Dubins model.
 Header `dubins rho=<bits> sym=<0|1> lo=<bits> hi=<bits>` (the bounds are set on the real space only;
@@ -26,6 +27,9 @@ structure St where
   rho : Float
   sym : Bool
   rs : Bool := false
+  dint : Bool := false
+  owen : Bool := false
+  tanp : Float := 0.0
 
 def kv? (key : String) (tok : String) : Option String :=
   if tok.startsWith (key ++ "=") then some (tok.drop (key.length + 1)).toString else none
@@ -37,12 +41,19 @@ def init (ts : List String) : Option St :=
     let s ← kv? "sym" s
     let _ ← (kv? "lo" lo) >>= parseFloatBits?
     let _ ← (kv? "hi" hi) >>= parseFloatBits?
-    if s == "0" then pure ⟨r, false, false⟩ else if s == "1" then pure ⟨r, true, false⟩ else none
+    if s == "0" then pure ⟨r, false, false, false, false, 0.0⟩ else if s == "1" then pure ⟨r, true, false, false, false, 0.0⟩ else none
   | ["rs", r, lo, hi] => do
     let r ← (kv? "rho" r) >>= parseFloatBits?
     let _ ← (kv? "lo" lo) >>= parseFloatBits?
     let _ ← (kv? "hi" hi) >>= parseFloatBits?
-    pure ⟨r, false, true⟩
+    pure ⟨r, false, true, false, false, 0.0⟩
+  | ["dint"] => some ⟨1.0, false, false, true, false, 0.0⟩
+  | ["owen", r, p, lo, hi] => do
+    let r ← (kv? "rho" r) >>= parseFloatBits?
+    let p ← (kv? "pitch" p) >>= parseFloatBits?
+    let _ ← (kv? "lo" lo) >>= parseFloatBits?
+    let _ ← (kv? "hi" hi) >>= parseFloatBits?
+    pure ⟨r, false, false, false, true, Float.tan p⟩
   | _ => none
 
 def pose? : List String → Option (Pose Float)
@@ -137,7 +148,127 @@ def stepD (st : St) (ts : List String) : St × String :=
     | _, _ => (st, "bad-op")
   | _ => (st, "bad-op")
 
+/-! per-formula lock step (header `dint`, see harness/dubins_int.cpp) -/
+
+def word? : String → Option Word
+  | "LSL" => some .LSL | "RSR" => some .RSR | "RSL" => some .RSL | "LSR" => some .LSR
+  | "RLR" => some .RLR | "LRL" => some .LRL | _ => none
+
+def rsBase? : String → Option (Float → Float → Float → OmplModel.RS.Sol Float)
+  | "LpSpLp" => some OmplModel.RS.LpSpLp | "LpSpRp" => some OmplModel.RS.LpSpRp | "LpRmL" => some OmplModel.RS.LpRmL
+  | "LpRupLumRm" => some OmplModel.RS.LpRupLumRm | "LpRumLumRp" => some OmplModel.RS.LpRumLumRp
+  | "LpRmSmLm" => some OmplModel.RS.LpRmSmLm | "LpRmSmRm" => some OmplModel.RS.LpRmSmRm
+  | "LpRmSLmRp" => some OmplModel.RS.LpRmSLmRp | _ => none
+
+def rsFam? : String → Option (Float → Float → Float → Option (OmplModel.RS.RSPath Float))
+  | "CSC" => some (fun x y p => OmplModel.RS.runFamily none (OmplModel.RS.candsCSC x y p) none)
+  | "CCC" => some (fun x y p => OmplModel.RS.runFamily none (OmplModel.RS.candsCCC x y p) none)
+  | "CCCC" => some (fun x y p => OmplModel.RS.runFamily none (OmplModel.RS.candsCCCC x y p) none)
+  | "CCSC" => some (fun x y p => OmplModel.RS.runFamily (some OmplModel.RS.hpi) (OmplModel.RS.candsCCSC x y p) none)
+  | "CCSCC" => some (fun x y p => OmplModel.RS.runFamily (some OmplModel.RS.rpi) (OmplModel.RS.candsCCSCC x y p) none)
+  | _ => none
+
+def f3? (a b c : String) : Option (Float × Float × Float) := do
+  let a ← parseFloatBits? a
+  let b ← parseFloatBits? b
+  let c ← parseFloatBits? c
+  pure (a, b, c)
+
+def showOpt (P : Option (Path Float)) : String := showRes (Res.ofOpt P)
+
+def stepDint (st : St) (ts : List String) : St × String :=
+  match ts with
+  | ["rsbase", n, x, y, p] =>
+    match rsBase? n, f3? x y p with
+    | some S, some (x, y, p) =>
+      match S x y p with
+      | some (t, u, v) => (st, joinSp [floatBits t, floatBits u, floatBits v])
+      | none => (st, "none")
+    | _, _ => (st, "bad-op")
+  | ["rsfam", n, x, y, p] =>
+    match rsFam? n, f3? x y p with
+    | some F, some (x, y, p) =>
+      match F x y p with
+      | some q => (st, showRS q)
+      | none => (st, "nopath")
+    | _, _ => (st, "bad-op")
+  | ["tauomega", u, v, xi, eta, phi] =>
+    match f3? u v xi, parseFloatBits? eta, parseFloatBits? phi with
+    | some (u, v, xi), some eta, some phi =>
+      let (tau, om) := OmplModel.RS.tauOmega u v xi eta phi
+      (st, joinSp [floatBits tau, floatBits om])
+    | _, _, _ => (st, "bad-op")
+  | ["dword", w, d, a, b] =>
+    match word? w, f3? d a b with
+    | some w, some (d, a, b) => (st, showOpt (solve mod2pi w d a b))
+    | _, _ => (st, "bad-op")
+  | ["dexh", d, a, b] =>
+    match f3? d a b with
+    | some (d, a, b) => (st, showOpt (dubinsExhaustive mod2pi d a b))
+    | none => (st, "bad-op")
+  | ["dcls", d, a, b] =>
+    match f3? d a b with
+    | some (d, a, b) =>
+      if 0 ≤ a ∧ a ≤ (twopi : Float) ∧ 0 ≤ b ∧ b ≤ (twopi : Float) then (st, showRes (dubinsClassification d a b))
+      else (st, "unclassified")
+    | none => (st, "bad-op")
+  | ["dlong", d, a, b] =>
+    match f3? d a b with
+    | some (d, a, b) => (st, if isLongPath d a b then "1" else "0")
+    | none => (st, "bad-op")
+  | ["dquad", a] =>
+    match parseFloatBits? a with
+    | some a => (st, toString (quadrant a))
+    | none => (st, "bad-op")
+  | ["dsw", d, a, b] =>
+    match f3? d a b with
+    | some (d, a, b) =>
+      (st, joinSp ([s_12 d a b, s_13 d a b, s_14_1 d a b, s_21 d a b, s_22_1 d a b, s_22_2 d a b, s_24 d a b, s_31 d a b,
+        s_33_1 d a b, s_33_2 d a b, s_34 d a b, s_41_1 d a b, s_41_2 d a b, s_42 d a b, s_43 d a b].map floatBits))
+    | none => (st, "bad-op")
+  | ["dm2p", x] =>
+    match parseFloatBits? x with
+    | some x => (st, floatBits (mod2pi x))
+    | none => (st, "bad-op")
+  | ["rsm2p", x] =>
+    match parseFloatBits? x with
+    | some x => (st, floatBits (OmplModel.RS.rmod2pi x))
+    | none => (st, "bad-op")
+  | _ => (st, "bad-op")
+
+/-! Owen space (header `owen`, see harness/dubins.cpp): the root of the bracketing search is a recorded answer -/
+
+def st4? : List String → Option (OmplModel.Owen.St4 Float)
+  | [x, y, z, w] => do
+    let x ← parseFloatBits? x
+    let y ← parseFloatBits? y
+    let z ← parseFloatBits? z
+    let w ← parseFloatBits? w
+    pure ⟨x, y, z, w⟩
+  | _ => none
+
+def stepOwen (st : St) (ts : List String) : St × String :=
+  match ts with
+  | ["owpathr", a, b, c, d, e, f, g, h, root] =>
+    match st4? [a, b, c, d], st4? [e, f, g, h], parseFloatBits? root with
+    | some s1, some s2, some root =>
+      match OmplModel.Owen.getPathWith st.rho st.tanp root s1 s2 with
+      | some p =>
+        (st, "cat=" ++ p.category ++ " " ++ showPath p.path ++ " r=" ++ floatBits p.r ++ " dz=" ++ floatBits p.dz ++
+          " phi=" ++ floatBits p.phi ++ " k=" ++ toString p.k.toUInt64 ++ " len=" ++ floatBits p.len)
+      | none => (st, "nopath")
+    | _, _, _ => (st, "bad-op")
+  | ["owinterpr", a, b, c, d, e, f, g, h, t, root] =>
+    match st4? [a, b, c, d], st4? [e, f, g, h], parseFloatBits? t, parseFloatBits? root with
+    | some s1, some s2, some t, some root =>
+      let q := match OmplModel.Owen.getPathWith st.rho st.tanp root s1 s2 with
+        | some p => OmplModel.Owen.interpWith s1 s2 t p
+        | none => s1
+      (st, joinSp [floatBits q.x, floatBits q.y, floatBits q.z, floatBits q.yaw])
+    | _, _, _, _ => (st, "bad-op")
+  | _ => (st, "bad-op")
+
 def step (st : St) (ts : List String) : St × String :=
-  if st.rs then stepRS st ts else stepD st ts
+  if st.owen then stepOwen st ts else if st.dint then stepDint st ts else if st.rs then stepRS st ts else stepD st ts
 
 end OmplModel.Driver.DubinsDrv
